@@ -1,9 +1,11 @@
 package props
 
 import (
+	"encoding/json"
 	"fmt"
 	"strconv"
 	"strings"
+	"time"
 	"unicode/utf8"
 
 	"github.com/semihalev/twig"
@@ -24,9 +26,37 @@ func init() {
 			"the spelling of the references is not prescribed (named, decimal and hex forms are accepted)",
 			"text(v) of a non-string value is what {{ v }} prints",
 		},
-		quick: 1024 + 420 + 4000, thorough: 1024 + 420 + 120000, minQuick: 2000, minThorough: 30000,
+		quick: 1024 + 420 + 20000, thorough: 1024 + 420 + 120000, minQuick: 2000, minThorough: 30000,
 	}})
 }
+
+// value kinds whose textual form carries markup although their reflect.Kind is numeric, bool or struct
+type c07Op int
+
+func (o c07Op) String() string { return []string{"=", "<", "&&", "'"}[int(o)%4] }
+
+type c07Flag bool
+
+func (f c07Flag) String() string { return "<flag \"on\">" }
+
+type c07Ratio float64
+
+func (f c07Ratio) String() string { return "3<4 & 5>4" }
+
+type c07Tag struct{ N string }
+
+func (t c07Tag) String() string { return "<" + t.N + " class='x'>" }
+
+type c07Str string
+type c07Strs []string
+type c07Both struct{ N int }
+
+func (b c07Both) String() string { return "a<b" }
+func (b c07Both) Error() string  { return "e>f" }
+
+type template07 string
+
+func (t template07) String() string { return string(t) + "&" }
 
 func (p *c07) RequiredCounters(string) []string {
 	return []string{"codepoints-checked", "fallback-config-checks", "position:apply", "position:macro", "position:include"}
@@ -207,9 +237,13 @@ func (p *c07) Run(rec *core.Recorder, seed uint64, idx int, tier string) {
 		p.checkValue(rec, r, "fixed", fixed[idx], fixed[idx], len(fixed[idx]) < 5000)
 		return
 	}
-	if idx < 20 {
+	if idx < 60 {
 		// non-string values: text(v) is what {{ v }} prints
-		vals := []interface{}{0, -5, 42, 3.5, -0.25, true, false, nil, int64(1 << 40), 1e6}
+		sp := "<p>&'\""
+		vals := []interface{}{0, -5, 42, 3.5, -0.25, true, false, nil, int64(1 << 40), 1e6,
+			c07Op(1), c07Op(2), c07Flag(true), c07Ratio(1.5), c07Tag{"b"}, &c07Tag{"i"}, c07Str("<typed & 'string'>"), []byte("<bytes&>"), &sp, fmt.Errorf("error <value> & \"text\""),
+			[]string{"<a>", "b&c", "'q'"}, []interface{}{"<x>", 1, "\"y\""}, map[string]string{"<k>": "<v>&"}, map[string]interface{}{"k": "<v>"}, [2]string{"<", ">"}, c07Strs{"<s>"},
+			uint8('<'), int32('&'), struct{ A string }{"<f>"}, time.Duration(90) * time.Second, c07Both{3}, json.Number("1<2"), template07("<t>")}
 		v := vals[idx%len(vals)]
 		plain := renderFresh(map[string]string{"main": "{{ v }}"}, "main", map[string]interface{}{"v": v}, nil)
 		if plain.Err == nil && !plain.Panicked {
